@@ -4,7 +4,7 @@ LEVEL = 'exploration'
 RULE = ('fallback allocator: rounds of 1-64 goroutines released by a spin barrier request random sizes until exhaustion (bump pointer reset between '
         'rounds, first round of every process untouched); recorded regions are checked offline for pairwise disjointness, containment in the reserve and '
         'size; public Acquire: concurrent requests of 1B-64KiB checked for rwx mapping, write/read-back, execution of a written stub, disjointness; '
-        'mmap failure provoked for real by size (0, >=2^47) and by RLIMIT_AS; distinct = (path, goroutines, size class, exhausted?) classes')
+        'mmap failure provoked for real by size (0, >=2^47), by RLIMIT_AS and by a process-wide W^X policy (seccomp filter denying write+execute mappings and re-protections: the writer must find another way); distinct = (path, goroutines, size class, exhausted?) classes')
 
 
 def run(ctx):
@@ -24,5 +24,8 @@ def run(ctx):
         if ch.report and ch.report.get('inconclusive'):
             ctx.notes['mmap_denied'] = ch.report.pop('inconclusive')
         ctx.absorb(ch, what='TestC20MmapDenied')
+    # a process-wide W^X policy (seccomp filter): neither rwx mappings nor rwx re-protection are possible
+    chw = ctx.child(b, run='TestC20WXDenied', timeout=300, label='wx-denied')
+    ctx.absorb(chw, crash_key='C20/holder-write-failed', what='TestC20WXDenied')
     ctx.assumptions += ['each reset of the bump pointer starts an independent allocation history',
                         'wall-clock stamps are used only to report how many requests overlapped in time, never for the verdict']
